@@ -48,25 +48,44 @@ func NewGuardianSets(
 }
 
 func (gs *GuardianSets) GetGuardianSet(ctx context.Context, index int) (*common.GuardianSet, error) {
-	if index <= gs.currentGuardianSetIndex {
-		return gs.guardianSetLists[index], nil
+	if guardianSet, _ := gs.getKnownGuardianSet(index); guardianSet != nil {
+		return guardianSet, nil
 	}
 
-	// Perhaps the guardian set has been updated and we need to query from the chain
-	guardianSets, err := gs.getGuardianSetsRange(ctx, uint32(gs.currentGuardianSetIndex+1), uint32(index))
+	// Perhaps the guardian set has been updated and we need to query from the chain.
+	// Only sets up to the chain's current index are fetched: the contract answers a query for any
+	// other index with an empty set, which must never be cached in place of a future real set.
+	_, currentIndex := gs.getKnownGuardianSet(-1)
+	guardianSets, err := GetGuardianSetsFromChain(ctx, gs.ethRpcUrl, gs.ethGovernanceAddress, uint32(currentIndex+1))
 	if err != nil {
 		return nil, err
 	}
 	gs.updateGuardianSets(guardianSets)
 	gs.guardianSetC <- gs.GetCurrentGuardianSet()
 
-	if index > gs.currentGuardianSetIndex {
-		return nil, fmt.Errorf("invalid guardian index %v, current guardian set index: %v", index, gs.currentGuardianSetIndex)
+	guardianSet, currentIndex := gs.getKnownGuardianSet(index)
+	if guardianSet == nil {
+		return nil, fmt.Errorf("invalid guardian index %v, current guardian set index: %v", index, currentIndex)
 	}
-	return gs.guardianSetLists[index], nil
+	return guardianSet, nil
+}
+
+// getKnownGuardianSet returns the cached guardian set with the given index (nil if it is not
+// known yet) together with the current guardian set index.
+func (gs *GuardianSets) getKnownGuardianSet(index int) (*common.GuardianSet, int) {
+	gs.lock.Lock()
+	defer gs.lock.Unlock()
+
+	if index < 0 || index > gs.currentGuardianSetIndex || index >= len(gs.guardianSetLists) {
+		return nil, gs.currentGuardianSetIndex
+	}
+	return gs.guardianSetLists[index], gs.currentGuardianSetIndex
 }
 
 func (gs *GuardianSets) GetCurrentGuardianSet() *common.GuardianSet {
+	gs.lock.Lock()
+	defer gs.lock.Unlock()
+
 	return gs.guardianSetLists[gs.currentGuardianSetIndex]
 }
 
@@ -80,7 +99,8 @@ func (gs *GuardianSets) updateGuardianSet(ctx context.Context) {
 	for {
 		select {
 		case <-tick.C:
-			guardianSets, err := GetGuardianSetsFromChain(ctx, gs.ethRpcUrl, gs.ethGovernanceAddress, uint32(gs.currentGuardianSetIndex+1))
+			_, currentIndex := gs.getKnownGuardianSet(-1)
+			guardianSets, err := GetGuardianSetsFromChain(ctx, gs.ethRpcUrl, gs.ethGovernanceAddress, uint32(currentIndex+1))
 			if err != nil {
 				gs.logger.Error("failed to get guardian sets", zap.Error(err))
 				continue
@@ -114,8 +134,8 @@ func (gs *GuardianSets) updateGuardianSets(guardianSets []*common.GuardianSet) e
 		}
 	}
 
-	gs.currentGuardianSetIndex = int(maxGuardianSetIndex)
 	gs.guardianSetLists = append(gs.guardianSetLists, guardianSets[index:]...)
+	gs.currentGuardianSetIndex = int(maxGuardianSetIndex)
 
 	if len(gs.guardianSetLists) != gs.currentGuardianSetIndex+1 {
 		return fmt.Errorf("invalid guardian sets, currentGuardianSetIndex: %v, guardianSetSize: %v", gs.currentGuardianSetIndex, len(gs.guardianSetLists))
